@@ -282,7 +282,7 @@ prop("C18", NEC + "Clauses: every path through every Request arm of the three ph
      "exit handling per phase; senders released before the tasks are joined; end of input falls through to Ok(()); "
      "responses can only be built from the request's PreparedResponse; JSON-RPC error code numbers; the broker answers a handler's "
      "document query on every path, so that `document not open` is an answer (null) and not an error that ends the reader loop (BROKER answer).",
-     [{"rule": "LIFECYCLE", "floor": 97}, {"rule": "WHO-MAY", "floor": 9}, {"rule": "TABLES-ERRCODE", "floor": 4},
+     [{"rule": "LIFECYCLE", "floor": 76}, {"rule": "WHO-MAY", "floor": 9}, {"rule": "TABLES-ERRCODE", "floor": 4},
       {"rule": "BROKER", "filter": tag("answer"), "floor": 1},
       {"rule": "SEND-AWAIT", "floor": 11},
       {"rule": "CODEC", "floor": 8}])
